@@ -1,6 +1,6 @@
 (* Obligations over the REGENERATED templates (Templates.v) — compiled at check time. *)
 From Coq Require Import QArith Qfield List Bool PArith NArith.
-From PV Require Import Base.Expr Base.Interp C09.Model C09.Proofs C09.Properties.
+From PV Require Import Base.PyData Base.Expr Base.Interp Base.Stmts C09.Model C09.Proofs C09.ProofsExec C09.Properties.
 From PVGen.C09 Require Import Templates.
 Import ListNotations.
 Local Open Scope Q_scope.
@@ -106,4 +106,49 @@ Proof.
   - apply (PV.C09.Properties.transit_mean_transit_time gen_templates fi r n mdt gen_templates_equiv); assumption.
   - intros. apply (PV.C09.Properties.first_order_mean_absorption_time gen_templates fi r mat gen_templates_equiv); assumption.
   - intros. apply (PV.C09.Properties.zero_order_mean_absorption_time gen_templates fi r mat gen_templates_equiv); assumption.
+Qed.
+
+Theorem add_covariate_effect_sound_now :
+  forall (fi : finterp) (ode : id -> list (option Q) -> option Q) (a : cov_args) (l lm ls : list stmt) (r : env),
+    fi_proper fi -> ode_proper ode ->
+    g_surgery gen_templates a l = true ->
+    add_covariate_effect gen_templates a l = Some lm ->
+    spec_covariate_effect a l = Some ls ->
+    forall x, ~ In x (fresh_names a) -> oq_equiv (exec fi ode r lm x) (exec fi ode r ls x).
+Proof.
+  intros. apply (add_covariate_effect_sound fi ode gen_templates a l lm ls r); auto.
+  apply gen_templates_equiv.
+Qed.
+
+(* ---- over the reals, for the templates the code builds now (depends on the Coq.Reals axioms) -------- *)
+From Coq Require Import Reals Rpower Lra.
+From PV Require Import C09.ProofsR.
+Local Open Scope R_scope.
+
+Theorem effect_neutral_real_now :
+  forall (r : envR) (k : ekind) (m : R),
+    r s_cov = Some m -> r s_median = Some m -> ref_okR k m -> thetas_definedR k r ->
+    evalR r (effect_template k) = Some 1.
+Proof.
+  intros r k m Hc Hm Hk Ht. destruct k; cbn [evalR evalcR effect_template]; rewrite ?Hc, ?Hm; cbn [obind].
+  - destruct Ht as [t Ht]; rewrite Ht; cbn [obind]. rewrite Q2R_1. apply f_equal. ring.
+  - destruct Ht as [[t1 H1] [t2 H2]]; rewrite H1, H2; cbn [obind relR].
+    destruct (Rle_dec m m) as [_|N]; [|exfalso; apply N; apply Rle_refl].
+    rewrite Q2R_1. apply f_equal. ring.
+  - destruct Ht as [t Ht]; rewrite Ht; cbn [obind]. unfold fn1R. cbn [Pos.eqb F_EXP].
+    apply f_equal. replace (t * (m + - m)) with 0 by ring. apply exp_0.
+  - destruct Ht as [t Ht]; rewrite Ht; cbn [obind]. cbn [ref_okR] in Hk.
+    destruct (Req_EM_T m 0) as [E|_]; [exfalso; lra|]. cbn [obind]. unfold fn2R. cbn [Pos.eqb F_POW].
+    replace (m / m) with 1 by (field; lra).
+    destruct (Rlt_dec 0 1) as [_|N]; [|exfalso; lra]. apply f_equal. apply Rpower_base_1.
+Qed.
+
+Theorem iiv_neutral_real_now :
+  forall (r : envR) (k : ikind) (o : binop) (p : R),
+    iiv_neutral_kind k o = true -> r s_original = Some p -> r s_eta_new = Some 0 ->
+    evalR r (iiv_template k o) = Some p.
+Proof.
+  intros r k o p Hk Ho Hz. destruct k, o; cbn in Hk; try discriminate;
+    cbn [evalR iiv_template apply_op]; rewrite ?Ho, ?Hz; cbn [obind];
+    unfold fn1R; cbn [Pos.eqb F_EXP]; rewrite ?exp_0; cbn [obind]; rewrite ?Q2R_1; apply f_equal; ring.
 Qed.
